@@ -311,6 +311,18 @@ fn judge(m: &TlsMaterial, c: &TlsCase, o: &TlsObs, rep: &mut Report, d: &dyn Fn(
         fail("responses-undecodable", format!("responses do not decode: tls {:?} / plaintext {:?}", tdec.stop, pdec.stop), rep);
         return;
     }
+    // byte for byte: behind the reply to the handshake response (whose sequence id follows the id of
+    // the response, which differs between the two connections) the decrypted bytes equal the
+    // plaintext run's, sequence ids included
+    if let (Some(t0), Some(p1)) = (tpk.first(), ppk.get(1)) {
+        let ta = &o.world.app_in[t0.off + 4 + t0.len..];
+        let pa = &pout[p1.off + 4 + p1.len..];
+        if ta != pa {
+            fail("bytes-differ-from-plaintext", format!("behind the login reply the client decrypted {} bytes, the plaintext run produced {}; first difference at offset {:?}", ta.len(), pa.len(), first_diff(ta, pa)), rep);
+            return;
+        }
+        rep.counters.inc("connections_byte_compared_with_plaintext");
+    }
     if tdec.resps[..] != pdec.resps[1..] {
         fail("differs-from-plaintext", format!("over TLS the client decoded {} responses, over plaintext {}; they differ", tdec.resps.len(), pdec.resps.len() - 1), rep);
         return;
